@@ -5,9 +5,10 @@
    PARTIAL: (1) each _sendnext call and each line handled by _listen is one atomic step (bytecode-level races on the
    unlocked clear / resendfrom are not modelled); (2) completeness is proved for a clean link only; with corruption it
    is FALSE for the faithful model and for the code (C15_refuted_tail, C15_refuted_m110: the two known findings);
-   (3) the wire format is tied byte-for-byte by the correspondence, the decimal parser of the firmware is not modelled. *)
+   (3) frame_bytes is compared byte-for-byte with the wire on every run; what a *corrupted* frame parses to is not modelled
+   beyond C15_xor_detects_single (the protocol level only needs: rejected). *)
 From Coq Require Import ZArith NArith Bool List.
-From GS Require Import model.Sender proofs.SenderProofs.
+From GS Require Import model.Sender proofs.SenderProofs proofs.FrameProofs.
 Import ListNotations.
 Open Scope Z_scope.
 
@@ -42,6 +43,12 @@ Print Assumptions C15_complete_clean.
 (* the XOR checksum detects the replacement of any single byte of the numbered prefix *)
 Theorem C15_xor_detects_single : forall pre b b' post, b <> b' -> checksum (pre ++ b :: post) <> checksum (pre ++ b' :: post).
 Proof. exact xor_detects_single. Qed.
+
+(* WIRE FORMAT: every transmission N<k> <command>*<xor> is read back by the firmware as exactly (k, command) with a
+   matching checksum, for every line number (the reset's -1 included) and every command text *)
+Theorem C15_frame_roundtrip : forall (k : Z) (cmd : list N), fw_parse (frame_bytes k cmd) = Some (k, cmd, true).
+Proof. exact frame_roundtrip. Qed.
+Print Assumptions C15_frame_roundtrip.
 
 (* completeness under corruption is false: the faithful model loses the last line / the first line *)
 Theorem C15_refuted_tail : exists s, run nat job3 tail_sched (init nat 0 true) = Some s /\
